@@ -38,6 +38,7 @@ def scan_global_state(root="/repo/src"):
 
 class C19(FrpProp):
     pid = "C19"
+    category = "translation_validation"
     tag = "c19"
     default_mode = "frp-multi"
     profile = Profile(w=W(sloop=2, cloop=2, switch_s=2, switch_c=2, defer=2, split=1, router=1), p_mem=0.3, n_txn=(3, 8),
